@@ -301,6 +301,7 @@ def run(ctx):
     _run_rules(ctx)
     from .. import boundaries
     boundaries.check(ctx, 'C04.RB', 'C04')
+    boundaries.check_amounts(ctx, 'C04.RA', 'C04')
     boundaries.check_inits(ctx, 'C04.RI', 'C04')
     boundaries.check_writes(ctx, 'C04.RW', 'C04')
     boundaries.check_guards(ctx, 'C04.RG', 'C04')
